@@ -295,7 +295,10 @@ def ef8(facts, rep):
 
 def run(facts, rep, ctx):
     ef8(facts, rep)
-    gd2(facts, rep)
+    from . import round2
+    round2.gd2(facts, rep, TB)
+    if ctx.get('flavor') != 'nochk':
+        round2.po7(facts, rep, TB)
     ef3_gd3(facts, rep)
     ts5(facts, rep)
     tb9(facts, rep)
